@@ -219,6 +219,19 @@ def _cli_work(arg):
                     'float' if isinstance(fld, hf.FloatField) else 'x'
                 if not same(kind, v, w):
                     errs.append(('value-differs', f'{line}: solved {v!r}, read back {w!r}'))
+            # reading is not consuming: a second filler over the same parsed solution (say, a flattened and an editable
+            # copy from one parse) loads the same values
+            try:
+                p2 = pdf_filler.PDFFiller(p._solution, habutax.forms.available_forms[year], os.path.join(d, 'out2.pdf'))
+                for sec in p._solution:
+                    if sec != 'DEFAULT':
+                        p2._add_form(sec)
+                again = p2._values.values
+                if fr['exc'] is None and (set(again) != set(loaded) or any(repr(loaded[k]) != repr(again[k]) for k in loaded if k in again)):
+                    errs.append(('second-read-differs', f'a second read of the same parsed solution loads {len(again)} lines, the first loaded {len(loaded)}'))
+            except Exception as e:
+                if fr['exc'] is None:
+                    errs.append(('second-read-differs', f'a second read of the same parsed solution raises {type(e).__name__}: {e}'))
             extra = set(loaded) - set(typed)
             if extra:
                 errs.append(('line-invented', f'read-back holds lines the solution does not have: {sorted(extra)[:4]}'))
